@@ -36,9 +36,20 @@ func KnownFindings() []KnownFinding {
 			{Default: true, Body: []*Stmt{SPrint(StrLit("d"))}},
 		}},
 	})
+	// func inner() { defer func() { println("rec", recover() != nil) }(); panic("B") }
+	// func main()  { defer func() { inner(); println("after inner") }(); panic("A") }
+	//     Go: rec true / after inner / panic A      GnoVM: rec true / panic A  ("after inner" never printed)
+	none := FuncT(nil, nil)
+	nr := &Program{Main: 2, Funcs: []*Func{
+		{Name: "inner", Body: []*Stmt{SDefer(FuncLit(1, none)), SPanic(Box(StrLit("B")))}},
+		{Name: "lit1", Lit: true, Body: []*Stmt{SPrint(StrLit("rec"), Bin("ne", Recover(), Nil(AnyT)))}},
+		{Name: "main", Body: []*Stmt{SDefer(FuncLit(3, none)), SPanic(Box(StrLit("A")))}},
+		{Name: "lit3", Lit: true, Body: []*Stmt{SExpr(Call(V("inner", nil), nil)), SPrint(StrLit("after inner"))}},
+	}}
 	return []KnownFinding{
 		{"shift-assign-narrow-count", shift},
 		{"untyped-bool-rejected", ub},
 		{"fallthrough-block-shrink", ft},
+		{"nested-recover-abandons-defer", nr},
 	}
 }
